@@ -61,6 +61,7 @@ THEOREMS = [
     "Nix.C05.frame_link_replaces_ticks",
     "Nix.C05.relink_leads_to_new_target",
     "Nix.C05.shape_checks_before_writes",
+    "Nix.C05.shape_link_tests_file_first",
     "Nix.C05.shape_link_data_array_writes",
     "Nix.C05.shape_link_data_frame_writes",
     "Nix.C05.shape_remove_link_and_ticks",
